@@ -84,7 +84,8 @@ func checkFileObject(keys ...string) checkerFunc {
 				// User specified a custom driver, which might have it's own way to set content
 				return nil
 			}
-			if _, ok := v["external"]; !ok {
+			// `external: false` is the default written out: the object still needs a source
+			if external, ok := v["external"]; !ok || external == false {
 				return fmt.Errorf("%s: one of %s must be set", p, strings.Join(keys, "|"))
 			}
 		}
